@@ -71,6 +71,7 @@ type lbEngine struct {
 	scanFns    map[string]bool // functions whose loops are byte scans: checked for unit steps and exhaustive exits
 	progress   bool            // C03/R7: every loop iteration advances the cursor or a counter
 	tiling     bool            // C13/R4: track the Space/Raw/Pos/End stores of tokens and comments
+	tokLen     bool            // C06/R3: track Token.Kind / Token.AsString stores of the token reader; <param> spans '@' + its name
 	shallow    bool            // calls to lexer methods only move the cursor forward (not followed)
 	shallowLeaf bool           // ... except loop-free leaf helpers (skip, skipN, peek*), which are still inlined
 	rootPre    []string
@@ -1247,6 +1248,7 @@ func (e *lbEngine) execBlock(in *lbInst, b *ssa.BasicBlock, st *lstate, rets *[]
 					}
 				}
 			} else if e.tiling && e.tilingStore(in, &st, x) {
+			} else if e.tokLen && e.tokLenStore(in, &st, x) {
 			} else if fa, ok := x.Addr.(*ssa.FieldAddr); ok && fieldAddrName(fa) == "Buffer" && e.aliasOf(in, fa.X) == "file" {
 				st = st.eliminate(e.at, map[atomID]bool{e.N: true})
 				e.notes = append(e.notes, "Buffer reassigned in "+funcName(in.fn))
@@ -1294,6 +1296,28 @@ func (e *lbEngine) execBlock(in *lbInst, b *ssa.BasicBlock, st *lstate, rets *[]
 					}
 					e.requireAt(st, in.fn, x, "C13/R4", funcName(in.fn)+": on return Token."+strings.TrimSuffix(strings.TrimSuffix(f, "Lo"), "Hi")+" has been recorded (Space and Raw unless the token is <bad>)",
 						[]string{"the field is stored on this path"}, []lin{need})
+				}
+			}
+			if e.tokLen && e.record && len(e.frames) == 1 {
+				k := e.at.get(ghostFieldKey{"Token", "kindIsParam"}, "Token.kindIsParam", false)
+				a := e.at.get(ghostFieldKey{"Token", "asStringLen"}, "len(Token.AsString)", false)
+				g := e.at.get("entryPos", "cursor at entry", false)
+				if !e.present(st, k) || !st.proves(e.at, lfact{l: linAtom(k).scale(-1)}) {
+					// the kind on this return may be <param>
+					span := linAtom(e.P).sub(linAtom(g))
+					want := linAtom(a).add(linConst(1))
+					need := []lin{span.sub(want), want.sub(span)}
+					if !e.present(st, a) {
+						need = []lin{linConst(-1), linConst(-1)}
+					}
+					if !e.present(st, k) {
+						// kind unknown on this path: only an obligation when it can be <param>; a path that never stores Kind is not a token
+						need = nil
+					}
+					if need != nil {
+						e.requireAt(st, in.fn, x, "C06/R3", funcName(in.fn)+": a <param> token spans '@' and exactly the bytes of its name (Param.end = Atmark + 1 + len(Name))",
+							[]string{"bytes consumed >= 1 + len(AsString)", "bytes consumed <= 1 + len(AsString)"}, need)
+					}
 				}
 			}
 			if rets != nil {
@@ -2114,6 +2138,164 @@ func (e *lbEngine) tilingStore(in *lbInst, stp **lstate, x *ssa.Store) bool {
 	return true
 }
 
+// tokLenStore: stores to Token.Kind / Token.AsString in the token reader (C06/R3).
+func (e *lbEngine) tokLenStore(in *lbInst, stp **lstate, x *ssa.Store) bool {
+	fa, ok := x.Addr.(*ssa.FieldAddr)
+	if !ok {
+		return false
+	}
+	b, ok := fa.X.(*ssa.FieldAddr)
+	if !ok || fieldAddrName(b) != "Token" || e.aliasOf(in, b.X) != "lexer" {
+		return false
+	}
+	st := *stp
+	switch fieldAddrName(fa) {
+	case "Kind":
+		k := e.at.get(ghostFieldKey{"Token", "kindIsParam"}, "Token.kindIsParam", false)
+		st = st.eliminate(e.at, map[atomID]bool{k: true})
+		if c, ok := constString(x.Val); ok {
+			if c == "<param>" {
+				st = st.eq(linAtom(k), linConst(1))
+			} else {
+				st = st.eq(linAtom(k), linConst(0))
+			}
+		} else if kindNotParam(x) {
+			st = st.eq(linAtom(k), linConst(0))
+		} else {
+			// not a constant: may be <param>
+			st = st.ge(linAtom(k), linConst(0)).ge(linConst(1), linAtom(k))
+		}
+	case "AsString":
+		a := e.at.get(ghostFieldKey{"Token", "asStringLen"}, "len(Token.AsString)", false)
+		st = st.eliminate(e.at, map[atomID]bool{a: true})
+		if lo, hi, ok := e.bufSlice(in, x.Val); ok {
+			st = st.eq(linAtom(a), hi.sub(lo))
+		}
+	default:
+		return false
+	}
+	*stp = st
+	return true
+}
+
+// kindNotParam: a non-constant value stored into Token.Kind that cannot be "<param>": a one-byte string
+// (TokenKind([]byte{c})), or a key found in token.KeywordsMap (the store is dominated by the ok-edge of the lookup
+// with that key; the map holds the reserved words only, C14/R1).
+func kindNotParam(st *ssa.Store) bool {
+	v := st.Val
+	for {
+		switch x := v.(type) {
+		case *ssa.ChangeType:
+			v = x.X
+			continue
+		case *ssa.Convert:
+			v = x.X
+			continue
+		}
+		break
+	}
+	if sl, ok := v.(*ssa.Slice); ok {
+		if al, ok := sl.X.(*ssa.Alloc); ok {
+			if arr, ok := al.Type().(*types.Pointer).Elem().Underlying().(*types.Array); ok && arr.Len() == 1 {
+				return true
+			}
+		}
+	}
+	for _, b := range st.Parent().Blocks {
+		for _, in := range b.Instrs {
+			lk, ok := in.(*ssa.Lookup)
+			if !ok || !lk.CommaOk || lk.Index != st.Val {
+				continue
+			}
+			ld, ok := lk.X.(*ssa.UnOp)
+			if !ok {
+				continue
+			}
+			g, ok := ld.X.(*ssa.Global)
+			if !ok || g.Name() != "KeywordsMap" {
+				continue
+			}
+			for _, u := range referrers(lk) {
+				ex, ok := u.(*ssa.Extract)
+				if !ok || ex.Index != 1 {
+					continue
+				}
+				for _, uu := range referrers(ex) {
+					if iff, ok := uu.(*ssa.If); ok {
+						yes := iff.Block().Succs[0]
+						if len(yes.Preds) == 1 && (yes == st.Block() || yes.Dominates(st.Block())) {
+							return true
+						}
+					}
+				}
+			}
+		}
+	}
+	return false
+}
+
+// ruleC06R3: the lexer side of "Param.end = Atmark + 1 + len(Name)".
+func ruleC06R3(w *World, r *Report) {
+	const rule = "C06/R3"
+	r.rule(rule, "on every return of (*Lexer).consumeToken on which Token.Kind may be <param>, the bytes consumed since entry are exactly 1 + len(Token.AsString), AsString being a slice of the input: the parser copies AsString into Param.Name and ast.Param ends at Atmark + 1 + len(Name) (LEXBOUNDS, helpers inlined, other lexer methods only move the cursor forward)", 1)
+	defer debug.SetGCPercent(debug.SetGCPercent(1000))
+	root := w.fn(w.Mem, "(*Lexer).consumeToken")
+	if root == nil {
+		r.errorf("(*Lexer).consumeToken not found")
+		return
+	}
+	// the kind constant must exist at all
+	stores := 0
+	for _, fn := range w.ModFns {
+		if fnPkgPath(fn) != modRoot {
+			continue
+		}
+		for _, b := range fn.Blocks {
+			for _, in := range b.Instrs {
+				if st, ok := in.(*ssa.Store); ok {
+					if fa, ok := st.Addr.(*ssa.FieldAddr); ok && fieldAddrName(fa) == "Kind" {
+						if c, ok := constString(st.Val); ok && c == "<param>" {
+							stores++
+							if fn != root {
+								r.bad(rule, "store of <param> in "+funcName(fn), w.pos(st.Pos()), "a <param> token is produced outside consumeToken: its length is not covered by this rule")
+							}
+						}
+					}
+				}
+			}
+		}
+	}
+	if stores == 0 {
+		r.errorf("no store of the <param> kind found")
+		return
+	}
+	e := w.newLexBounds()
+	e.tokLen, e.shallow, e.shallowLeaf = true, true, true
+	e.trace = verboseRule() != "" && verboseRule() != "1" && strings.HasPrefix(rule, verboseRule())
+	e.runRoot(root, map[string]bool{"noPanic": false})
+	e.runRoot(root, map[string]bool{"noPanic": true})
+	n := 0
+	for _, ob := range e.results() {
+		if ob.rule != rule {
+			continue
+		}
+		n++
+		if ob.failed == 0 {
+			r.ok(rule, ob.construct, ob.where, fmt.Sprintf("proved in %d context(s)", ob.total))
+		} else {
+			var ds []string
+			for d := range ob.details {
+				ds = append(ds, d)
+			}
+			sort.Strings(ds)
+			r.bad(rule, ob.construct, ob.where, fmt.Sprintf("%d of %d context(s): %s", ob.failed, ob.total, strings.Join(ds, " | ")))
+		}
+	}
+	if n == 0 {
+		r.errorf("no return of consumeToken with a possible <param> kind was reached")
+	}
+}
+
 // ---- roots --------------------------------------------------------------------------------------
 
 func (e *lbEngine) runRoot(fn *ssa.Function, bools map[string]bool) {
@@ -2123,6 +2305,9 @@ func (e *lbEngine) runRoot(fn *ssa.Function, bools map[string]bool) {
 		if n := namedOf(p.Type()); n != nil && n.Obj().Name() == "Lexer" && n.Obj().Pkg().Path() == modRoot {
 			in.alias[p] = "lexer"
 			st = st.ge(linAtom(e.P), linConst(0)).ge(linAtom(e.N), linAtom(e.P))
+			if e.tokLen {
+				st = st.eq(linAtom(e.at.get("entryPos", "cursor at entry", false)), linAtom(e.P))
+			}
 			if os.Getenv("VERIF_LB_ASSUME_AVAIL") != "" {
 				st = st.ge(linAtom(e.N), linAtom(e.P).add(linConst(1)))
 			}
